@@ -426,17 +426,22 @@ func runLBAdmin(x *X) {
 // is diagnosed as such; otherwise the first operation kind that disagrees with
 // a sequential replay in return order is named.
 func linearCause(hist []histOp, init adminState) string {
-	adds := map[string]int{}
+	initial := map[string]int{}
 	for _, e := range init.entries {
-		adds[e[:strings.Index(e, "|")]]++
+		initial[e[:strings.Index(e, "|")]]++
 	}
 	hs := append([]histOp{}, hist...)
-	sort.Slice(hs, func(i, j int) bool { return hs[i].inv < hs[j].inv })
-	for _, o := range hs {
-		if o.in.Op == "add" && o.out.Code == 201 {
-			adds[o.in.Name]++
+	for _, r := range hs {
+		if r.in.Op != "remove" || r.out.Code != 200 {
+			continue
 		}
-		if o.in.Op == "remove" && o.out.Code == 200 && adds[o.in.Name] >= 2 {
+		n := initial[r.in.Name]
+		for _, a := range hs {
+			if a.in.Op == "add" && a.out.Code == 201 && a.in.Name == r.in.Name && a.inv < r.ret {
+				n++
+			}
+		}
+		if n >= 2 {
 			return "remove-of-duplicate-name"
 		}
 	}
